@@ -19,7 +19,7 @@ ANCHORS = ["decaylanguage.dec.dec:DecFileParser.build_decay_chains", "decaylangu
            "decaylanguage.dec.dec:DecFileParser._decay_mode_details"]
 WORKERS = {"quick": 4, "thorough": 16}
 WTESTS = {"groups": ['parser_chains'], "tests": ['tests/dec', 'tests/decay']}
-REQUIRED = {"asked-from-deep-inside-the-callers-recursion:answered": 2, "asked-from-deep-inside-the-callers-recursion": 4, "asked-again-after:answer-edited": 20, "asked-again-after:modes-expanded": 10, "cascade-deeper-than-100-levels": 1, "mother-made-by-CDecay-or-CopyDecay-used-as-daughter": 20, "depth>=3": 50, "repeated-daughter-in-line": 50, "empty-block-daughter": 20, "S-cuts-at-depth>=2": 50, "lines>=4": 50, "not-found-raises": 20,
+REQUIRED = {"asked-again-after:a-refused-question": 50, "asked-again-after:an-abandoned-call:interrupted": 50, "copydecay-onto-a-name-with-its-own-block": 5, "asked-from-deep-inside-the-callers-recursion:answered": 2, "asked-from-deep-inside-the-callers-recursion": 4, "asked-again-after:answer-edited": 20, "asked-again-after:modes-expanded": 10, "cascade-deeper-than-100-levels": 1, "mother-made-by-CDecay-or-CopyDecay-used-as-daughter": 20, "depth>=3": 50, "repeated-daughter-in-line": 50, "empty-block-daughter": 20, "S-cuts-at-depth>=2": 50, "lines>=4": 50, "not-found-raises": 20,
             "S-contains-direct-daughters": 50, "S-as-set": 20, "S-as-tuple": 20, "S-all-subsets": 10, "daughters>=3": 50, "alias-mother": 10,
             "corpus-mother": 20, "photos-line-in-chain": 20, "conjugated-table-in-set": 10, "S-contains-the-mother": 20, "zero-branching-fraction-line-with-decaying-daughter": 5, "earlier-instance-queried-again": 20, "reparsed-without-conjugates": 5, "C09.build_decay_chains.is_unfolding": 300}
 ASSUMPTIONS = ["table sets are acyclic (as quantified)", "the chain reports the model without the PHOTOS keyword; an absent parameter list '' == []"]
